@@ -284,7 +284,10 @@ def _update(
 ) -> tuple[optax.Updates, _SketchyState]:
   """Update internal shampoo stats and precondition gradients."""
   del params
-  sketches = state.sketches
+  # The lax.cond branches below close over `sketches`; make sure the leaves are
+  # jax arrays (not NumPy arrays from a restored checkpoint, which would be
+  # embedded as compile-time constants and change the rounding of the update).
+  sketches = jax.tree.map(jnp.asarray, state.sketches)
   is_tensor_state = lambda x: isinstance(x, _TensorState)
 
   should_update_stats = (state.count % options.update_freq) == 0
